@@ -88,8 +88,7 @@ Definition witnesses : list (list (list ast)) :=
 
 Lemma witnesses_all : Forall (fun p => wf_program p = true /\ ~ parse_encode_statement p) witnesses.
 Proof.
-  apply Forall_forall. intros p Hp. apply refutes_sound.
-  pose proof witnesses_refute as H. rewrite forallb_forall in H. apply H. exact Hp.
+  unfold witnesses. repeat (constructor; [apply refutes_sound; vm_compute; reflexivity|]). constructor.
 Qed.
 
 (** a program on which the statement holds (non-vacuity of its conclusion): scopes, a device, a method with a call
@@ -107,4 +106,4 @@ Definition good_program : list (list ast) :=
     AName (nm1 BUF0) (ABuffer 1 (byte 4) [1; 2; 3])]].
 
 Lemma good_program_ok : wf_program good_program = true /\ parse_encode_statement good_program.
-Proof. split; vm_compute; reflexivity. Qed.
+Proof. split; [vm_compute; reflexivity|]. unfold parse_encode_statement. vm_compute. reflexivity. Qed.
